@@ -146,6 +146,7 @@ pub struct CanaryReport {
     pub fork_server_live: bool,
     pub tid_seam_live: bool,
     pub memstat_seam_live: bool,
+    pub rusage_seam_live: bool,
     pub urandom_seam_live: bool,
     pub distinct_outputs: usize,
     /// "0,1;0,2,1;…" per canary key, as the real process printed it
@@ -165,6 +166,7 @@ pub fn exec_canary(args: &Args) -> CanaryReport {
         fork_server_live: false,
         tid_seam_live: false,
         memstat_seam_live: false,
+        rusage_seam_live: false,
         urandom_seam_live: false,
         distinct_outputs: 0,
         orders_per_key: vec![],
@@ -266,6 +268,7 @@ pub fn exec_canary(args: &Args) -> CanaryReport {
             && log.clock_reads == 3;
         report.tid_seam_live = text.contains("tid=31337");
         report.memstat_seam_live = text.contains("VmRSS:=123456=kB");
+        report.rusage_seam_live = text.contains("maxrss=123456");
         // /dev/urandom starts with the plan's key
         let k = &ident.key;
         report.urandom_seam_live = text.contains(&format!("urandom={:02x}{:02x}{:02x}{:02x}", k[0], k[1], k[2], k[3]));
@@ -739,6 +742,7 @@ pub fn run_main(args: &Args) -> i32 {
             "fork_server_seams_live": canary.fork_server_live,
             "thread_id_seam_live": canary.tid_seam_live,
             "memory_statistics_seam_live": canary.memstat_seam_live,
+            "resource_accounting_seam_live": canary.rusage_seam_live,
             "dev_urandom_seam_live": canary.urandom_seam_live,
             "inproc_entropy_seam_live": ip_live,
             "inproc_entropy_seam_repeatable": ip_repeatable,
